@@ -378,7 +378,7 @@ def check_getters(ctx, e, h, ent, wit):
             ctx.fail("getter %s returns a value different from the entry's data" % g, g, kind="c05", input=wit())
 
 
-def hdr_parse(ctx, rest_len, extra, which="IndexTag", ascii_store=True, fix_intro=False, kinds=None, fix_tag=None):
+def hdr_parse(ctx, rest_len, extra, which="IndexTag", ascii_store=True, fix_intro=False, kinds=None, fix_tag=None, fix_types=None, fix_counts=None):
     """input: 16 intro bytes + rest_len bytes (index entries and store) + `extra` trailing bytes, ALL symbolic
     (fix_intro: magic/version fixed to the valid values so that the interesting region is explored faster)."""
     parse = ctx.impl_fn("parse", None, "Header")
@@ -420,6 +420,21 @@ def hdr_parse(ctx, rest_len, extra, which="IndexTag", ascii_store=True, fix_intr
         if fix_tag is not None and rest_len >= 4:
             for i in range(4):
                 e.solver.add(rest[i] == ((fix_tag >> (24 - 8 * i)) & 0xff))
+        if fix_types is not None:
+            # typed shape: the number of entries, the store size and each entry's data type (optionally its count) are fixed; tags, offsets,
+            # (counts) and the store bytes stay symbolic - this is how headers with two entries are kept within reach
+            ne = len(fix_types)
+            for i, v in enumerate((0, 0, 0, ne)):
+                e.solver.add(intro[8 + i] == v)
+            ssz = rest_len - 16 * ne
+            for i in range(4):
+                e.solver.add(intro[12 + i] == ((ssz >> (24 - 8 * i)) & 0xff))
+            for k_, ty in enumerate(fix_types):
+                for i in range(4):
+                    e.solver.add(rest[16 * k_ + 4 + i] == ((ty >> (24 - 8 * i)) & 0xff))
+                if fix_counts is not None and fix_counts[k_] is not None:
+                    for i in range(4):
+                        e.solver.add(rest[16 * k_ + 12 + i] == ((fix_counts[k_] >> (24 - 8 * i)) & 0xff))
         return intro + rest
 
     def body(e, bs):
@@ -544,6 +559,11 @@ for _r in (0, 16, 17):
     HARNESSES["c01_hdr_anyintro_%d_0" % _r] = (lambda r: (lambda ctx: hdr_parse(ctx, r, 0, fix_intro=False, kinds=("rt", "inv", "consume"))))(_r)
 # non-ASCII store bytes for the binary/integer types are covered by a variant without the ASCII restriction; paths that reach
 # string decoding with a byte >= 0x80 are outside the bound (counted in extra.paths_outside_bound)
+# typed shapes: two entries (BIN+BIN, INT32+STRING), one INT32 / INT16 / INT64 entry holding two items
+for _nm, _rl, _ty, _ct in (("2bin_2", 34, [7, 7], None), ("2i32str_6", 38, [4, 6], [1, 1]), ("i32x2", 24, [4], [2]), ("i16x2", 20, [3], [2]), ("i64x2", 32, [5], [2]), ("strs2", 20, [8], [2])):
+    HARNESSES["c01_hdrt_" + _nm] = (lambda rl, ty, ct: (lambda ctx: hdr_parse(ctx, rl, 0, fix_intro=True, ascii_store=False, kinds=("rt", "inv", "consume"), fix_types=ty, fix_counts=ct)))(_rl, _ty, _ct)
+    HARNESSES["c04_hdrt_" + _nm] = (lambda rl, ty, ct: (lambda ctx: hdr_parse(ctx, rl, 0, fix_intro=True, ascii_store=False, kinds=("panic", "alloc"), fix_types=ty, fix_counts=ct)))(_rl, _ty, _ct)
+    HARNESSES["c05_hdrt_" + _nm] = (lambda rl, ty, ct: (lambda ctx: hdr_parse(ctx, rl, 0, fix_intro=True, ascii_store=(8 in ty or 6 in ty), kinds=("c05",), fix_tag=1000, fix_types=ty, fix_counts=ct)))(_rl, _ty, _ct)
 HARNESSES["c04_hdr_bin_18_0"] = lambda ctx: hdr_parse(ctx, 18, 0, fix_intro=True, ascii_store=False, kinds=("panic", "alloc"))
 HARNESSES["c01_hdr_bin_18_0"] = lambda ctx: hdr_parse(ctx, 18, 0, fix_intro=True, ascii_store=False, kinds=("rt", "inv", "consume"))
 HARNESSES["c05_hdr_bin_18_0"] = lambda ctx: hdr_parse(ctx, 18, 0, fix_intro=True, ascii_store=False, kinds=("c05",), fix_tag=1000)
@@ -879,7 +899,7 @@ def c02_shapes():
     return list(itertools.product(og, lg, lg, lg))
 
 
-def c02_verify(ctx, shapes, with_digest):
+def c02_verify(ctx, shapes, with_digest, with_sha1=False):
     vs = ctx.impl_fn("verify_signature", None, "Package")
     wr = ctx.impl_fn("write", None, "Header")
     ctx.bounds = ("%d signature-header shapes (OPENPGP: absent / wrong type / string array of 0,1,2 items; RSA, DSA, PGP: absent / binary / wrong type), signature bytes symbolic, "
@@ -895,7 +915,8 @@ def c02_verify(ctx, shapes, with_digest):
             e._decode_calls = 0
             e._decoded = []
             inp = {"content": sym_bytes(e, "c", 2, 0, 255), "rsa": sym_bytes(e, "r", 6, 0, 255), "dsa": sym_bytes(e, "d", 6, 0, 255), "pgp": sym_bytes(e, "g", 6, 0, 255),
-                   "b64": [sym_bytes(e, "o%d_" % i, 2, 0x30, 0x7a) for i in range(2)], "sha256": sym_bytes(e, "S", 64 if with_digest is True else int(with_digest), 0x20, 0x7e)}
+                   "b64": [sym_bytes(e, "o%d_" % i, 2, 0x30, 0x7a) for i in range(2)], "sha256": sym_bytes(e, "S", 64 if with_digest is True else int(with_digest), 0x20, 0x7e),
+                   "sha1": sym_bytes(e, "s1_", 40, 0x20, 0x7e)}
             return inp
 
         def body(e, inp, og=og, rsa=rsa, dsa=dsa, pgp=pgp):
@@ -910,6 +931,8 @@ def c02_verify(ctx, shapes, with_digest):
                     ents.append(index_entry(sigtag(name), index_data("Bin", byte_vec(inp[key]))))
                 elif st == "wrong":
                     ents.append(index_entry(sigtag(name), index_data("StringTag", string(inp[key]))))
+            if with_sha1:
+                ents.append(index_entry(sigtag("RPMSIGTAG_SHA1"), index_data("StringTag", string(inp["sha1"]))))
             if with_digest is not False:
                 ents.append(index_entry(sigtag("RPMSIGTAG_SHA256"), index_data("StringTag", string(inp["sha256"]))))
             sig = header(ents, [])
@@ -930,7 +953,7 @@ def c02_verify(ctx, shapes, with_digest):
                 m = e.solver.model()
                 g = lambda xs: bytes(m.eval(x, model_completion=True).as_long() for x in xs).hex()  # noqa: E731
                 return dict(shape="/".join(shape), content=g(inp["content"]), rsa=g(inp["rsa"]), dsa=g(inp["dsa"]), pgp=g(inp["pgp"]),
-                            b64=[g(x) for x in inp["b64"]], sha256=g(inp["sha256"]), digest=(with_digest is not False),
+                            b64=[g(x) for x in inp["b64"]], sha256=g(inp["sha256"]), digest=(with_digest is not False), sha1=bool(with_sha1),
                             accepts=("".join("1" if c[2] else "0" for c in v[1].calls) if k == "return" else ""),
                             algo=(getattr(v[1], "algo", None) if k == "return" else None) or "RSA")
             if k != "return":
@@ -971,6 +994,8 @@ def c02_verify(ctx, shapes, with_digest):
                                 why = "succeeds although the verifier was shown different signature bytes than the header stores"
                     if why is None and with_digest is not False:
                         dig_ok = all_eq(hexchars(uf_digest("sha256", hb)), inp["sha256"])
+                        if with_sha1:
+                            dig_ok = z3.And(dig_ok, all_eq(hexchars(uf_digest("sha1", hb)), inp["sha1"]))
                         if e._check(z3.Not(dig_ok)):
                             why = "succeeds although the recorded header digest does not match"
                 if why:
@@ -1010,6 +1035,8 @@ HARNESSES["c02_verify_digest"] = lambda ctx: c02_verify(ctx, [("arr1", "absent",
 # the same with a recorded header digest that is shorter than a SHA-256 in hex
 HARNESSES["c02_verify_digest_short"] = lambda ctx: c02_verify(ctx, [("arr1", "absent", "absent", "absent"), ("absent", "right", "absent", "absent")], 63)
 HARNESSES["c02_verify_digest_empty"] = lambda ctx: c02_verify(ctx, [("arr1", "absent", "absent", "absent")], 0)
+# both header digests recorded (SHA1 and SHA256), each symbolic: success needs both to match
+HARNESSES["c02_verify_digest_both"] = lambda ctx: c02_verify(ctx, [("arr1", "absent", "absent", "absent"), ("absent", "right", "absent", "absent")], True, with_sha1=True)
 
 
 def replay_c02(ctx, fl):
@@ -1039,8 +1066,12 @@ def replay_c02(ctx, fl):
         true = hashlib.sha256(RB.header([(tag("RPMTAG_NAME"), "StringTag", 0, 1)], b"x\0")).hexdigest().encode()
         n = len(bytes.fromhex(fl.get("sha256", "")))
         val = true
-        if "digest does not match" in fl.get("description", ""):
+        if "digest does not match" in fl.get("description", "") and not fl.get("sha1"):
             val = b"5" * 64 if n == 64 else (true + true)[:n]
+        if fl.get("sha1"):
+            # both digests recorded: the SHA256 one right, the SHA1 one wrong when the finding is an accepted mismatch
+            t1 = hashlib.sha1(RB.header([(tag("RPMTAG_NAME"), "StringTag", 0, 1)], b"x\0")).hexdigest().encode()
+            add("RPMSIGTAG_SHA1", "StringTag", (b"5" * 40 if "digest does not match" in fl.get("description", "") else t1) + b"\0", 1)
         add("RPMSIGTAG_SHA256", "StringTag", val + b"\0", 1)
     pkg = RB.package(sig_e, sig_s, [(tag("RPMTAG_NAME"), "StringTag", 0, 1)], b"x\0", bytes.fromhex(fl["content"]))
     pattern = fl.get("accepts") or "1111"
@@ -1473,7 +1504,7 @@ def c14_write(ctx, k, what="package", mode="fail", sigsz=5):
     ex = Exec(ctx.funcs, intrinsics.I, max_steps=400000)
     ctx.stats = ex.stats
     ctx.bounds = ("%s::write of a package with a 2-entry signature header (%d store bytes + %d padding), a 1-entry main header (4 store bytes) and 3 payload bytes, all contents symbolic, "
-                  "into a sink accepting %s per call, %s at a symbolic call number" % (what.capitalize(), sigsz, (-sigsz) % 8, "everything" if k == 0 else "%d byte(s)" % k, {"fail": "failing for good", "intr": "answering Interrupted once", "offsets": "never failing (fail_at = 0 means no failure);"}[mode]))
+                  "into a sink accepting %s per call, %s at a symbolic call number" % (what.capitalize(), sigsz, (-sigsz) % 8, "everything" if k == 0 else "%d byte(s)" % k, {"fail": "failing for good", "intr": "answering Interrupted once", "offsets": "never failing (fail_at = 0 means no failure);", "zero": "being full (write() returns Ok(0)) from"}[mode]))
 
     def setup(e):
         return dict(sig=sym_bytes(e, "s", sigsz, 0, 255), hdr=sym_bytes(e, "h", 4, 0, 255), content=sym_bytes(e, "c", 3, 0, 255),
@@ -1489,7 +1520,7 @@ def c14_write(ctx, k, what="package", mode="fail", sigsz=5):
         rc = e.call_fn(wr, [Ref(Cell(target)), Ref(Cell(canon))])
         assert rc.variant == "Ok"
         zero = z3.BitVecVal(0, 16)
-        sink = ScriptSink(k, inp["fail_at"] if mode == "fail" else zero, inp["intr_at"] if mode == "intr" else zero)
+        sink = ScriptSink(k, inp["fail_at"] if mode == "fail" else zero, inp["intr_at"] if mode == "intr" else zero, zero_at=(inp["fail_at"] if mode == "zero" else None))
         r = e.call_fn(wr, [Ref(Cell(target)), Ref(Cell(sink))])
         if mode == "offsets":
             offs = e.call_fn(ctx.impl_fn("get_package_segment_offsets", None, "PackageMetadata"), [Ref(Cell(pkg.fields[0]))])
@@ -1503,7 +1534,7 @@ def c14_write(ctx, k, what="package", mode="fail", sigsz=5):
         def wit():
             assert e.solver.check() == z3.sat
             m = e.solver.model()
-            return dict(fail_at=m.eval(inp["fail_at"], model_completion=True).as_long(), intr_at=m.eval(inp["intr_at"], model_completion=True).as_long(), k=k, what=what, sigsz=sigsz)
+            return dict(fail_at=m.eval(inp["fail_at"], model_completion=True).as_long(), intr_at=m.eval(inp["intr_at"], model_completion=True).as_long(), k=k, what=what, sigsz=sigsz, mode=mode)
         if kk != "return":
             ctx.fail("writing panics: %s" % (v,), what + "::write", kind="wpanic", **wit())
             return
@@ -1520,7 +1551,7 @@ def c14_write(ctx, k, what="package", mode="fail", sigsz=5):
                 ctx.fail("reported segment offsets are not where the segments are in the bytes the sink received", "PackageMetadata::get_package_segment_offsets / Package::write", kind="wsink", **wit())
             return
         if okr:
-            if sink.failed or len(got) != len(canon) or e._check(z3.Not(all_eq(got, canon))):
+            if sink.failed or sink.full or len(got) != len(canon) or e._check(z3.Not(all_eq(got, canon))):
                 ctx.fail("write returns success although the sink %s" % ("reported a failure" if sink.failed else "did not receive exactly the canonical bytes"), what + "::write", kind="wsink", **wit())
         else:
             if len(got) > len(canon) or (got and e._check(z3.Not(all_eq(got, canon[:len(got)])))):
@@ -1539,6 +1570,9 @@ def replay_wsink(ctx, fl):
         pk = RB.package(sig_e, b"\x07" * n, [(1000, "Bin", 0, 4)], b"\x01\x02\x03\x04", b"abc")
         ans = ctx.native.ask("wsink", str(fl["k"]), str(fl["fail_at"]), str(fl["intr_at"]), fl["what"], pk.hex())
         return ans.startswith("bad"), "real crate, same sink script on a hand-encoded package with a %d-byte signature store (canonical bytes = the input): %s" % (n, ans)
+    if fl.get("mode") == "zero":
+        ans = ctx.native.ask("wsink_zero", str(fl["k"]))
+        return ans.startswith("bad"), "real crate, a built package written into sinks that are full (write() = Ok(0)) after every possible number of bytes: " + ans
     ans = ctx.native.ask("wsink", str(fl["k"]), str(fl["fail_at"]), str(fl["intr_at"]), fl["what"])
     return ans.startswith("bad"), "real crate, same sink script on a built package: " + ans
 
@@ -1547,6 +1581,8 @@ for _k in (0, 1, 2, 5):
     HARNESSES["c14_wpkg_k%d" % _k] = (lambda k: (lambda ctx: c14_write(ctx, k, "package", "fail")))(_k)
     HARNESSES["c14_wpkg_intr_k%d" % _k] = (lambda k: (lambda ctx: c14_write(ctx, k, "package", "intr")))(_k)
     HARNESSES["c14_wmeta_k%d" % _k] = (lambda k: (lambda ctx: c14_write(ctx, k, "metadata", "fail")))(_k)
+for _k in (0, 1, 5):
+    HARNESSES["c14_wzero_k%d" % _k] = (lambda k: (lambda ctx: c14_write(ctx, k, "package", "zero")))(_k)
 for _k in (1, 2, 3, 5):
     HARNESSES["c16_woff_k%d" % _k] = (lambda k: (lambda ctx: c14_write(ctx, k, "package", "offsets")))(_k)
 for _r in range(0, 17):
